@@ -23,6 +23,15 @@ Two machines share this check (the first field of a root spec selects one):
               o.copy() (route agreement); every write below `_landmarks` and every landmark mutator on either side is
               invisible on the other.
 
+(a") roots ("copy", "scale", kind, ...) - SCALE letters of machine (a): the same payloads at other legal magnitudes (x1e-9,
+    x1e-6, x1e6, a common offset of 1e6 on a spread of ~5), transforms that are exactly / nearly-but-not-exactly the identity
+    (relative distance 1e-6 .. 1e-9) or of huge / tiny magnitude, alignments whose target nearly equals the source, and one
+    large-size letter per container kind.  Every oracle of (a) is an exact comparison, so it is scale-free as it stands;
+    scale-equivariance of copy() (copy(s*x) == s*copy(x)) is implied by exact equality of the copy with its source.
+    Mutators come in a second form that takes the OTHER side as its argument (c.compose_before_inplace(o), c.landmarks =
+    o.landmarks, ...), and after every mutator of a transform / model / manager / scale letter (and after every other-side
+    mutator) both objects are probed again for write-independence in the same step.
+
 (b) roots ("lm", variant, shard, n_shards) - landmark-manager histories
     State   : owners P (2-D PointCloud), I (2-D Image), optionally X (an owner derived from P or I) and a
               detached manager M (result of manager.copy()); a pool of three external values
@@ -35,6 +44,9 @@ Two machines share this check (the first field of a root spec selects one):
               model's n_dims and group observations; None resolves iff exactly one group; dimension mismatch
               and the None key raise ValueError, a missing key KeyError; every value stored by the step is
               write-independent of where it came from (all arrays, both directions).
+    Scale variants of the pre-filled root: payload x1e-9 ("tiny"), x1e6 ("huge"), +1e6 ("offset"), and "near" (edits multiply
+    by 1+1e-7 - nearly equal operands - and the owner translation is 1e-7); shift and edits scale with the payload and the only
+    tolerance (groups that went through a Translation) is 1e-12 relative to the magnitude of the payload.
 """
 import collections
 import copy as _pycopy
@@ -47,7 +59,7 @@ from mc import letters as L
 from mc.core import Check, Failure
 from mc.observe import PROBE3, obs_diff, obs_key, observe
 
-LM_TOL = 1e-9  # groups travel through a Translation in one op; every edit / aliasing effect is >= 1
+LM_RTOL = 1e-12  # groups travel through a Translation in one op: tolerance = LM_RTOL x magnitude of the payload
 
 
 # =================================================================================================
@@ -135,7 +147,7 @@ def _other_value(v, dtype):
         return not bool(v)
     if dtype.kind in "iu":
         return v + 1 if v < np.iinfo(dtype).max else v - 1
-    return v + 1.5 if np.isfinite(v) else 0.0
+    return v + 1.5 * max(1.0, abs(float(v))) if np.isfinite(v) else 0.0  # visible at every magnitude
 
 
 def write_array(kind, arr, parent, which):
@@ -262,7 +274,7 @@ def gobs(g):
 
 
 def gkey(d):
-    p = np.round(d["points"], 9) + 0.0
+    p = d["points"] + 0.0  # exact: the model's arithmetic is deterministic (rounding would merge tiny payloads)
     return (d["class"], p.shape, p.tobytes(), d["adj"].tobytes() if "adj" in d else None, tuple(d.get("labels", ())), d["masks"].tobytes() if "masks" in d else None)
 
 
@@ -355,7 +367,158 @@ def copy_letters():
     # view, or rebuilt from another object's as_vector() (which is a read-only view of that object's data)
     for s in RO_LETTERS:
         out.append(("copy", "ro", s))
+    for s in SCALE_LETTERS:
+        out.append(("copy", "scale") + tuple(s))
     return out
+
+
+SCALE_LETTERS = (
+    [("shape", c, v) for c, v in (
+        ("PointCloud", "x1e-9"), ("PointCloud", "x1e6"), ("PointCloud", "+1e6"), ("LabelledPointUndirectedGraph", "x1e-9"),
+        ("TriMesh", "x1e6"), ("PointTree", "+1e6"), ("ColouredTriMesh", "x1e-6"), ("PointUndirectedGraph", "weights-x1e-9"),
+        ("PointDirectedGraph", "weights-x1e6"))]
+    + [("image", c, v) for c, v in (("Image", "x1e-9"), ("Image", "x1e6"), ("MaskedImage", "+1e6"), ("MaskedImage", "x1e-6"))]
+    + [("lm", "LandmarkManager", v) for v in ("x1e-9", "x1e6")]
+    + [("tr", c, "near-identity", d) for d in (2, 3) for c in L.HOMOG_ALL]
+    + [("tr", c, "identity", 2) for c in L.HOMOG_PLAIN]
+    + [("tr", c, v, 2) for c, v in (
+        ("Translation", "huge"), ("Translation", "tiny"), ("UniformScale", "huge"), ("UniformScale", "tiny"),
+        ("NonUniformScale", "mixed"), ("Affine", "huge"), ("Similarity", "tiny"), ("Homogeneous", "huge"),
+        ("TransformChain", "near-identity"), ("PythonPWA", "near-identity"), ("CachedPWA", "near-identity"),
+        ("ThinPlateSplines", "near-identity"))]
+    + [("model", c, v) for c, v in (
+        ("LinearVectorModel", "x1e-9"), ("MeanLinearVectorModel", "x1e6"), ("PCAVectorModel", "x1e-6"), ("PCAVectorModel", "x1e6"),
+        ("PCAVectorModel", "+1e6"), ("PCAModel", "x1e-6"))]
+    + [("size", c, v) for c, v in (("PointCloud", "20000-points"), ("Image", "200x300"), ("LazyList", "2000"), ("LinearVectorModel", "5000-features"))]
+)
+_SCALES = {"x1e-9": (1e-9, 0.0), "x1e-6": (1e-6, 0.0), "x1e6": (1e6, 0.0), "+1e6": (1.0, 1e6)}
+
+
+def _near_identity(cls, d, seed):
+    """a legal transform of class `cls` whose matrix is nearly but not exactly the identity (1e-6 .. 1e-9 away)."""
+    import menpo.transform as mt
+    from menpo.shape import PointCloud
+
+    r = L.rs(seed, "c06-near", cls, d)
+    eps = 1e-9 * (1.0 + r.rand(d + 1, d + 1))
+    ang = 1e-9
+    rot = np.eye(d)
+    rot[0, 0], rot[0, 1], rot[1, 0], rot[1, 1] = np.cos(ang), -np.sin(ang), np.sin(ang), np.cos(ang)
+    if cls == "Homogeneous":
+        return mt.Homogeneous(np.eye(d + 1) + eps)
+    if cls == "Affine":
+        h = np.eye(d + 1)
+        h[:d] += eps[:d]
+        return mt.Affine(h)
+    if cls == "Similarity":
+        h = np.eye(d + 1)
+        h[:d, :d] = (1 + 2e-9) * rot
+        h[:d, d] = 3e-9 * (1 + r.rand(d))
+        return mt.Similarity(h)
+    if cls == "Rotation":
+        return mt.Rotation(rot)
+    if cls == "UniformScale":
+        return mt.UniformScale(1 + 2e-6, d)
+    if cls == "NonUniformScale":
+        return mt.NonUniformScale(1 + np.array([2e-6, -3e-7, 5e-8][:d]))
+    if cls == "Translation":
+        return mt.Translation(np.array([3e-9, -2e-9, 1e-9][:d]))
+    if cls.startswith("Alignment"):
+        src = L.generic_points(5, d, seed, ("c06-near-src", cls))
+        return getattr(mt, cls)(PointCloud(src), PointCloud(src * (1 + 2e-7) + 3e-9))
+    raise ValueError(cls)
+
+
+def build_scale(spec, seed):
+    import menpo.transform as mt
+    from menpo.base import LazyList
+    from menpo.image import Image
+    from menpo.model import LinearVectorModel, MeanLinearVectorModel, PCAModel, PCAVectorModel
+    from menpo.shape import PointCloud, PointDirectedGraph, PointUndirectedGraph, TriMesh
+
+    kind, cls, var = spec[0], spec[1], spec[2]
+    r = L.rs(seed, "c06-scale", kind, cls, var)
+    if kind == "shape":
+        if var.startswith("weights-"):
+            a, _ = _SCALES[var[len("weights-"):]]
+            p = L.generic_points(5, 2, seed, ("c06-scale", cls))
+            w = np.zeros((5, 5))
+            for i, j in L.EDGES5:
+                w[i, j] = a * (1.0 + r.rand())
+            if cls == "PointUndirectedGraph":
+                return PointUndirectedGraph(p, w + w.T)
+            return PointDirectedGraph(p, w)
+        a, b = _SCALES[var]
+        obj = L.shape((cls, 2, 1), seed)
+        obj.points = obj.points * a + b
+        for g in obj.landmarks.values():
+            g.points = g.points * a + b
+        return obj
+    if kind == "image":
+        a, b = _SCALES[var]
+        obj = L.image((cls, (3, 4), 2, "float64", "sparse" if cls == "MaskedImage" else "-", 1), seed)
+        obj.pixels = obj.pixels * a + b
+        return obj
+    if kind == "lm":
+        a, b = _SCALES[var]
+        m = build_manager(2, 3, seed)
+        for g in m.values():
+            g.points = g.points * a + b
+        return m
+    if kind == "tr":
+        d = int(spec[3])
+        if var == "identity":
+            return getattr(mt, cls).init_identity(d)
+        if var == "near-identity":
+            if cls == "TransformChain":
+                return mt.TransformChain([_near_identity("Translation", d, seed), _near_identity("UniformScale", d, seed)])
+            if cls in ("PythonPWA", "CachedPWA"):
+                from menpo.transform.piecewiseaffine.base import CachedPWA, PythonPWA
+
+                src, tl = L.pwa_layout(seed, ("c06-near", cls))
+                return {"PythonPWA": PythonPWA, "CachedPWA": CachedPWA}[cls](TriMesh(src, tl), TriMesh(src + 1e-9 * r.rand(5, 2), tl))
+            if cls == "ThinPlateSplines":
+                src = L.generic_points(6, 2, seed, ("c06-near-tps",), min_area=L.MIN_AREA)
+                return mt.ThinPlateSplines(PointCloud(src), PointCloud(src * (1 + 2e-7) + 3e-9))
+            return _near_identity(cls, d, seed)
+        if cls == "Translation":
+            return mt.Translation((1e6 if var == "huge" else 1e-9) * (0.5 + r.rand(d)))
+        if cls == "UniformScale":
+            return mt.UniformScale((1e6 if var == "huge" else 1e-6) * (0.6 + r.rand()), d)
+        if cls == "NonUniformScale":
+            return mt.NonUniformScale(np.array([1e-6, 1e6]) * (0.6 + r.rand(2)))
+        base = L.transform((cls, d, 5), seed).h_matrix.copy()
+        if cls == "Similarity":
+            base[:d, :d] *= 1e-6
+            base[:d, d] *= 1e-9
+            return mt.Similarity(base)
+        base[:d] *= 1e6
+        return getattr(mt, cls)(base)
+    if kind == "model":
+        a, b = _SCALES[var]
+        if cls == "LinearVectorModel":
+            return LinearVectorModel(r.rand(3, N_FEAT) * a + b)
+        if cls == "MeanLinearVectorModel":
+            return MeanLinearVectorModel(r.rand(3, N_FEAT) * a + b, r.rand(N_FEAT) * a + b)
+        if cls == "PCAVectorModel":
+            return PCAVectorModel(L.spectrum_data(5, N_FEAT, seed, ("c06-scale", var)) * a + b)
+        x = L.spectrum_data(5, 6, seed, ("c06-scale", var), mean_scale=1.0) * a + b
+        samples = [PointCloud(row.reshape(3, 2).copy()) for row in x]
+        samples[0].landmarks["t"] = PointCloud(r.rand(2, 2) * a + b)
+        return PCAModel(samples)
+    if kind == "size":
+        if cls == "PointCloud":
+            obj = PointCloud(r.rand(20000, 3))
+            obj.landmarks["g"] = PointCloud(r.rand(4, 3))
+            return obj
+        if cls == "Image":
+            obj = Image(r.rand(1, 200, 300))
+            obj.landmarks["g"] = PointCloud(r.rand(4, 2) * 100)
+            return obj
+        if cls == "LazyList":
+            return LazyList.init_from_index_callable(lambda i: ("ix", i), 2000)
+        return LinearVectorModel(r.rand(2, 5000))
+    raise ValueError(spec)
 
 
 RO_LETTERS = ["PointCloud-ro-view", "TriMesh-ro-view", "Image-ro-view", "PointCloud-from-vector", "TriMesh-from-vector", "MaskedImage-ro-mask"]
@@ -524,6 +687,8 @@ def build_letter(root, seed):
         return build_lazy(root[2], seed)
     if fam == "ro":
         return build_ro(root[2], seed)
+    if fam == "scale":
+        return build_scale(root[2:], seed)
     raise ValueError(root)
 
 
@@ -741,6 +906,61 @@ def mutators(x):
     return out
 
 
+def other_mutators(x):
+    """mutator letters that take the OTHER object of the pair (or a part of it) as their argument."""
+    from menpo.image import Image
+    from menpo.landmark import LandmarkManager
+    from menpo.model import LinearVectorModel
+    from menpo.shape import PointCloud
+    from menpo.transform import Homogeneous
+
+    out = []
+    if isinstance(x, (PointCloud, Image)):
+        out += ["lm_assign_manager(other)"]
+        if x.has_landmarks:
+            out += ["lm_set(other-group)"]
+    elif isinstance(x, LandmarkManager):
+        if x.n_groups:
+            out += ["lm_set(other-group)"]
+    elif isinstance(x, Homogeneous):
+        if isinstance(x, x.composes_inplace_with):
+            out += ["compose_before_inplace(other)", "compose_after_inplace(other)"]
+        try:
+            x.as_vector()
+            out += ["from_vector_inplace(other)"]
+            if isinstance(x, x.composes_inplace_with):
+                out += ["compose_after_from_vector_inplace(other)"]
+        except NotImplementedError:
+            pass
+    elif isinstance(x, LinearVectorModel):
+        out += ["set_components(other)"]
+    return out
+
+
+def mutate_with_other(x, name, y):
+    """x is mutated with y (the other object of the pair, equal to what x was copied from / to) as the argument."""
+    from menpo.landmark import LandmarkManager
+
+    if name == "lm_assign_manager(other)":
+        x.landmarks = y.landmarks
+    elif name == "lm_set(other-group)":
+        mx = x if isinstance(x, LandmarkManager) else x.landmarks
+        my = y if isinstance(y, LandmarkManager) else y.landmarks
+        mx["zz-from-other"] = my[list(my)[0]]
+    elif name == "compose_before_inplace(other)":
+        x.compose_before_inplace(y)
+    elif name == "compose_after_inplace(other)":
+        x.compose_after_inplace(y)
+    elif name == "from_vector_inplace(other)":
+        x._from_vector_inplace(y.as_vector())
+    elif name == "compose_after_from_vector_inplace(other)":
+        x.compose_after_from_vector_inplace(y.as_vector())
+    elif name == "set_components(other)":
+        x.components = y._components if y._components.shape == x._components.shape else y.components
+    else:
+        raise ValueError(name)
+
+
 def _plain_homog_name(x):
     for name in ("Translation", "UniformScale", "NonUniformScale", "Rotation", "Similarity", "Affine", "Homogeneous"):
         import menpo.transform as mt
@@ -881,13 +1101,35 @@ def lm_payload(seed):
     return _PAYLOAD[seed]
 
 
-def build_pool(seed):
+def build_pool(seed, a=1.0, b=0.0):
     from menpo.shape import LabelledPointUndirectedGraph, PointCloud
 
     pl = lm_payload(seed)
     pts, adj, masks = pl["v1"]
-    v1 = LabelledPointUndirectedGraph(pts.copy(), adj.copy(), collections.OrderedDict((l, m.copy()) for l, m in masks), copy=False, skip_checks=True)
-    return [PointCloud(pl["v0"].copy()), v1, PointCloud(pl["v2"].copy())]
+    v1 = LabelledPointUndirectedGraph(pts * a + b, adj.copy(), collections.OrderedDict((l, m.copy()) for l, m in masks), copy=False, skip_checks=True)
+    return [PointCloud(pl["v0"] * a + b), v1, PointCloud(pl["v2"] * a + b)]
+
+
+# variant -> (start configuration, payload factor, payload offset, edit ("add", e) / ("mul", f), owner shift)
+LM_VARIANTS = collections.OrderedDict(
+    [
+        ("empty", ("empty", 1.0, 0.0, ("add", 1.0), (1.0, 2.0))),
+        ("pre", ("pre", 1.0, 0.0, ("add", 1.0), (1.0, 2.0))),
+        ("tiny", ("pre", 1e-9, 0.0, ("add", 1e-9), (1e-9, 2e-9))),
+        ("huge", ("pre", 1e6, 0.0, ("add", 1e6), (1e6, 2e6))),
+        ("offset", ("pre", 1.0, 1e6, ("add", 1.0), (1.0, 2.0))),
+        ("near", ("pre", 1.0, 0.0, ("mul", 1.0 + 1e-7), (1e-7, 2e-7))),
+    ]
+)
+LM_SCALE_VARIANTS = ("tiny", "huge", "offset", "near")
+
+
+def _edit(arr, how):
+    """the in-place edit of one coordinate - the same float operation on the live array and on the model's."""
+    if how[0] == "add":
+        arr[0, 0] += how[1]
+    else:
+        arr[0, 0] *= how[1]
 
 
 class LMModel(object):
@@ -925,6 +1167,7 @@ class C06(Check):
     def roots(self):
         n = self._lm_shards()
         out = [("lm", v, s, n) for v in ("empty", "pre") for s in range(n)]
+        out += [("lm", v, 0, 1) for v in LM_SCALE_VARIANTS]
         return out + copy_letters() + derive_letters()
 
     def build(self, root):
@@ -966,7 +1209,10 @@ class C06(Check):
 
     def check_root(self, st, root):
         if st["kind"] == "copy":
+            if root[0] == "copy" and root[1] == "scale":
+                self.note("scale-letter:%s:%s" % (root[2], root[4]))
             return self._copy_check_root(st, root)
+        self.note("lm-root:" + root[1])
         return self._lm_check_all(st, "lm-initial")
 
     def is_query(self, op):
@@ -1076,6 +1322,9 @@ class C06(Check):
         if level == 0:
             for side in ("c", "o"):
                 out += [("m", side, name) for name in (lm_mutators(st[side]) if derived else mutators(st[side]))]
+            if not derived:
+                for side in ("c", "o"):
+                    out += [("m", side, name) for name in other_mutators(st[side])]
         return out
 
     def _copy_apply(self, st, op, verify):
@@ -1120,7 +1369,10 @@ class C06(Check):
             return fails
         if kind == "m":
             name = op[2]
-            mutate(x, name, self.seed)
+            if "(other" in name:
+                mutate_with_other(x, name, y)
+            else:
+                mutate(x, name, self.seed)
             new = obs6(x)
             changed = obs_diff(st["obs"][side], new) is not None
             st["obs"][side] = new
@@ -1131,6 +1383,12 @@ class C06(Check):
                 d = obs_diff(st["obs"][other], obs6(y))
                 if d:
                     fails.append(Failure(where, "mutator-visible-in-%s:%s" % (seen_in, name), "%s on the %s changed the other: %s" % (name, "copy" if side == "c" else "original", d)))
+                # the two objects must still be write-independent (a mutator may adopt an array of its argument or of a
+                # cache): probed in this very step for the letters with few buffers and for every other-side mutator
+                fam = st["root"][1] if st["root"][0] == "copy" else "derive"
+                if "(other" in name or fam in ("tr", "model", "lm", "lazy", "scale"):
+                    for a, b, tag in ((x, y, seen_in), (y, x, "copy" if seen_in == "original" else "original")):
+                        independent(a, b, where, "after-%s:write-visible-in-%s:" % (name, tag), fails, lambda n: self.note("probe-after-mutator", n), root_a=a, observe=obs6)
             return fails
         raise ValueError(op)
 
@@ -1142,14 +1400,16 @@ class C06(Check):
         variant = root[1]
         st = {"kind": "lm", "root": root, "shard": (int(root[2]), int(root[3]))}
         pl = lm_payload(self.seed)
-        st["own"] = {"P": PointCloud(pl["P"].copy()), "I": Image(pl["I"].copy()), "X": None}
+        start, fa, fb, st["edit"], st["shift"] = LM_VARIANTS[variant]
+        st["tol"] = LM_RTOL * (fa * 6.0 + fb + max(st["shift"]))  # payload coordinates lie in [0.5, 5.5] x factor + offset
+        st["own"] = {"P": PointCloud(pl["P"] * fa + fb), "I": Image(pl["I"] * fa + fb), "X": None}
         st["M"] = None
-        st["pool"] = build_pool(self.seed)
+        st["pool"] = build_pool(self.seed, fa, fb)
         m = LMModel()
         m.pool = [gobs(v) for v in st["pool"]]
         st["own0"] = {"P": st["own"]["P"].points.copy(), "I": st["own"]["I"].pixels.copy()}
         st["model"] = m
-        if variant == "pre":
+        if start == "pre":
             for owner, name, v in (("P", "a", 1), ("P", "b", 0), ("I", "a", 0)):
                 st["own"][owner].landmarks[name] = st["pool"][v]
                 m.mgr[owner][name] = _pycopy.deepcopy(m.pool[v])
@@ -1207,6 +1467,8 @@ class C06(Check):
 
     def _lm_levels(self, st):
         """(number of levels explored from this root, first level that uses the narrow alphabet)."""
+        if st["root"][1] in LM_SCALE_VARIANTS:
+            return (2 if self.tier == "quick" else 3), 99
         if self.tier == "quick":
             return 3, 99
         # the 'pre' root starts three assignments deep: one level less than the empty root
@@ -1353,7 +1615,7 @@ class C06(Check):
                     if exc is not None:
                         fails.append(Failure("lm-get", "raised", repr(exc)))
                     else:
-                        d = obs_diff(m.mgr[mid][name], gobs(got), atol=LM_TOL)
+                        d = obs_diff(m.mgr[mid][name], gobs(got), atol=st["tol"])
                         if d:
                             fails.append(Failure("lm-get", "group-content", d))
             return fails  # query: the global oracle ran after the step that produced this state
@@ -1367,7 +1629,7 @@ class C06(Check):
                     if exc is not None:
                         fails.append(Failure("lm-get-none", "sole-group-not-resolved", repr(exc)))
                     else:
-                        d = obs_diff(list(od.values())[0], gobs(got), atol=LM_TOL)
+                        d = obs_diff(list(od.values())[0], gobs(got), atol=st["tol"])
                         if d:
                             fails.append(Failure("lm-get-none", "group-content", d))
             else:
@@ -1397,7 +1659,7 @@ class C06(Check):
                     if (n in mg) != (n in od):
                         fails.append(Failure("lm-iter", "contains", n))
                 vals = [gobs(g) for g in mg.values()]
-                d = obs_diff(list(od.values()), vals, atol=LM_TOL)
+                d = obs_diff(list(od.values()), vals, atol=st["tol"])
                 if d:
                     fails.append(Failure("lm-iter", "values", d))
             return fails
@@ -1417,14 +1679,14 @@ class C06(Check):
                 del m.mgr[mid][name]
         elif kind == "editpool":
             v = op[1]
-            st["pool"][v].points[0, 0] += 1.0
-            m.pool[v]["points"][0, 0] += 1.0
+            _edit(st["pool"][v].points, st["edit"])
+            _edit(m.pool[v]["points"], st["edit"])
             self.note("editpool:done")
         elif kind == "editgroup":
             mid, name = op[1], op[2]
             g = self._mgr(st, mid)[name]
-            g.points[0, 0] += 1.0
-            m.mgr[mid][name]["points"][0, 0] += 1.0
+            _edit(g.points, st["edit"])
+            _edit(m.mgr[mid][name]["points"], st["edit"])
             self.note("editgroup:done")
         elif kind == "mcopy":
             src = op[1]
@@ -1472,17 +1734,18 @@ class C06(Check):
                 self._probe_pairs(self._mgr(st, src), new.landmarks, m.mgr[src], "lm-owner-copy", fails)
         elif kind == "xform":
             src = op[1]
-            t = Translation(np.array(SHIFT))
+            shift = np.array(st["shift"])
+            t = Translation(shift)
             new = t.apply(st["own"][src])
             st["own"]["X"] = new
             od = LMModel.clone(m.mgr[src])
             for g in od.values():
-                g["points"] = g["points"] + np.array(SHIFT)
+                g["points"] = g["points"] + shift
             m.mgr["X"] = od
             m.xclass = type(new).__name__
             self.note("xform:%d-groups" % len(od))
             if verify:
-                if not np.allclose(new.points, st["own"][src].points + np.array(SHIFT), atol=LM_TOL, rtol=0):
+                if not np.allclose(new.points, st["own"][src].points + shift, atol=st["tol"], rtol=0):
                     fails.append(Failure("lm-owner-transform", "owner-points", "translated owner is wrong"))
                 self._probe_pairs(self._mgr(st, src), new.landmarks, m.mgr[src], "lm-owner-transform", fails)
         else:
@@ -1523,7 +1786,7 @@ class C06(Check):
             for name, g in od.items():
                 live = mg[name]
                 dims.add(live.n_dims)
-                d = obs_diff(g, gobs(live), atol=LM_TOL)
+                d = obs_diff(g, gobs(live), atol=st["tol"])
                 if d:
                     fails.append(Failure(where, "group-content", "manager %s group %r differs from what was stored: %s" % (mid, name, d)))
             if len(dims) > 1:
@@ -1564,7 +1827,13 @@ class C06(Check):
             "trim_components", "increment",
         ):
             need.append("mutator:%s:changed" % name)
-        need += ["mutator:lm_apply_inplace:changed", "derive:landmarks-equal", "derive:agrees-with-copy"]
+        need += ["mutator:lm_apply_inplace:changed", "derive:landmarks-equal", "derive:agrees-with-copy", "copied:scale", "equal:scale", "probe-after-mutator"]
+        need += ["lm-root:" + v for v in LM_VARIANTS]
+        need += ["scale-letter:%s:%s" % (s_[0], s_[2]) for s_ in SCALE_LETTERS]
+        for name in ("lm_assign_manager(other)", "lm_set(other-group)", "compose_before_inplace(other)", "compose_after_inplace(other)",
+                     "from_vector_inplace(other)", "compose_after_from_vector_inplace(other)", "set_components(other)"):
+            if not (notes.get("mutator:%s:changed" % name) or notes.get("mutator:%s:no-effect" % name)):
+                need.append("mutator:%s:changed|no-effect" % name)  # the argument equals the receiver's own state for some
         for rn in routes():
             need += ["derived:" + rn, "derive-write:" + rn, "derive-container-write:" + rn, "derive-mutator:" + rn]
         out = ["outcome %s never produced" % n for n in need if not notes.get(n)]
@@ -1618,7 +1887,11 @@ class C06(Check):
             "<= 5 from the empty and <= 4 from the pre-filled one, the 4th and 5th operation drawn from the narrowed alphabet C06.NARROW "
             "(+ all edits and all queries)",
             "a pool value can be edited in place only once it has been assigned somewhere",
-            "edits are +1.0 on the first coordinate; group comparison tolerance %g" % LM_TOL,
+            "edits are +1.0 on the first coordinate (scale variants: + the payload factor, or x(1+1e-7)); groups that went through a "
+            "Translation are compared with tolerance %g x magnitude of the payload, everything else exactly" % LM_RTOL,
+            "scale letters: a small fixed subset of the letters re-expressed at x1e-9 / x1e-6 / x1e6 / +1e6, (nearly) identity and "
+            "huge / tiny transforms, near-equal alignment targets, four large-size letters; the scale variants of the landmark machine "
+            "explore 2 (quick) / 3 (thorough) operations from the pre-filled configuration",
             "derive routes: only ownership of the landmarks is demanded of a route (pixels / points may be views by documented "
             "copy=False); geometric image routes (crop, warp, rescale, pyramid ...) belong to C01 and are not letters here",
         ]
